@@ -222,6 +222,29 @@ def setitem(eng, st, ref, o, idx, v):
         if va is not None:
             # same-mask fusion (DESIGN Appendix A): t[m] = e where e was compressed by the same mask object m
             info = eng.compress_info.get(v.oid) if isinstance(v, Ref) else None
+            if (info is None or info['mask'] is not m or not callable(info.get('pointwise'))) and m.ndim == 1 and isinstance(m.shape[0], int):
+                # concrete length: cell i receives the rank(i)-th value, rank(i) = number of selected cells before i
+                ranks, cnt = [], 0
+                for k in range(m.shape[0]):
+                    ranks.append(cnt)
+                    cnt = add(cnt, ite(to_bool(m.at(k)), 1, 0))
+                eng.oblige('safe', 'mask-store-length', st, eq(va.shape[0], cnt))
+
+                def at(i, o=o, m=m, va=va, ranks=ranks):
+                    ic = concrete(i) if not isinstance(i, int) else i
+                    def cell(k):
+                        mk = to_bool(m.at(k))
+                        if isinstance(mk, bool):
+                            return va.at(ranks[k]) if mk else o.at(k)
+                        return ite(mk, va.at(ranks[k]), o.at(k))
+                    if ic is not None:
+                        return cell(int(ic))
+                    r = o.at(i)
+                    for k in range(m.shape[0]):
+                        r = ite(eq(i, k), cell(k), r)
+                    return r
+                st.heap[ref.oid] = ArrV(o.shape, at, o.dtype, o.origin)
+                return
             if info is None or info['mask'] is not m or not callable(info.get('pointwise')):
                 raise OutOfSubset('masked store of an array value that is not built pointwise from the same mask')
             pw = info['pointwise']
@@ -772,4 +795,11 @@ def np_flatnonzero(eng, st, args, kwargs):
 @lib('numpy.log2')
 def np_log2(eng, st, args, kwargs):
     f = calls.uninterpreted('log2', ['Real'], 'Real')
-    yield map1(eng, st, args[0], lambda x: f(to_z3(to_real(x))) if is_z3(to_num(x)) or True else x, 'real'), st
+    import math
+
+    def g(x):
+        x = to_num(x)
+        if is_z3(x):
+            return f(to_z3(to_real(x)))
+        return math.log2(x) if x > 0 else NAN
+    yield map1(eng, st, args[0], g, 'real'), st
